@@ -37,6 +37,7 @@ Proof. induction l as [|e t IH]; intros m H; cbn [upserts fold_left]; [exact H|]
 Lemma overlay_loop_nodup U rules : forall i m, NoDup (map fst m) -> NoDup (map fst (overlay_loop U rules i m)).
 Proof.
   induction rules as [|[reg s] t IH]; intros i m H; cbn [overlay_loop]; [exact H|].
+  destruct reg as [|c0 regt]; [now apply IH|].
   apply IH. rewrite overlay_step_upserts. apply upserts_nodup. cbn. constructor; [intros []|constructor].
 Qed.
 
@@ -147,6 +148,8 @@ Section Collision.
     forall e, In e (overlay_loop U rest i m) -> box_good (fst e).
   Proof.
     induction rest as [|[reg s] t IH]; intros i m Hincl Hm e He; cbn [overlay_loop] in He; [now apply Hm|].
+    destruct reg as [|c0 regt]; [apply (IH (S i) m); [intros x Hx; apply Hincl; now right|exact Hm|exact He]|].
+    set (reg := c0 :: regt) in *.
     apply (IH (S i) (overlay_step U reg (rank_new i) m)); [intros x Hx; apply Hincl; now right| |exact He].
     apply step_boxes; [|exact Hm]. intros c Hc.
     assert (Hr : In (reg, s) rules) by (apply Hincl; now left).
@@ -227,7 +230,6 @@ Section NoCollision.
   Variable env : axes_env.
   Variable rules : list rule.
   Hypothesis Hwf : rules_wf UQ rules.
-  Hypothesis Hn : (length (preflight UQ rules) <= 64)%nat.
   Hypothesis Henv : env_inj env.
   Hypothesis Hbound : forall c a r, In c (all_boxes rules) -> In (a, r) c -> (fst r <= UQ /\ - UQ <= snd r)%Z.
   Hypothesis Hcover : forall c a r0 ai, In c (all_boxes rules) -> In (a, r0) c -> In (a, ai) env ->
@@ -246,12 +248,12 @@ Section NoCollision.
   Proof.
     intros items css Hov Hcs. unfold overlay_feature_variations in Hov. fold rules2 in Hov.
     pose proof (rules2_wf UQ rules Hwf) as Hwf2. fold rules2 in Hwf2.
-    rewrite (overlay_merged_ok UQ rules2 Hwf2 Hn) in Hov. inversion Hov; subst items. clear Hov.
+    rewrite (overlay_merged_ok UQ rules2 Hwf2) in Hov. inversion Hov; subst items. clear Hov.
     rewrite map_opt_map in Hcs. rewrite map_map in Hcs. cbn [item_of fst] in Hcs.
     set (final := overlay_loop UQ rules2 0 init_map) in *.
-    set (sorted := sort_by_zeros final) in *.
+    set (sorted := sort_by_ones final) in *.
     assert (Hperm : Permutation sorted final).
-    { unfold sorted, sort_by_zeros. apply (stable_sort_perm (fun e : box * rank => count_zeros (snd e))). }
+    { unfold sorted, sort_by_ones. apply (stable_sort_perm_d (fun e : box * rank => count_ones (snd e))). }
     (* boxes pairwise different *)
     assert (Hnd : NoDup (map fst (filter (nonzero) sorted))).
     { apply nodup_map_filter. apply (Permutation_NoDup (l := map fst final)); [apply Permutation_map, Permutation_sym, Hperm|].
